@@ -38,10 +38,10 @@ def dedupe(behs):
     return out
 
 
-def replay(c, behs, native, nkeys, insts, drain=True, padding=False, timeout=3000, sweeper_cut=False):
+def replay(c, behs, native, nkeys, insts, drain=True, padding=False, timeout=3000, sweeper_cut=False, dupsort_opt=False):
     d = vlib.scratch('proto-')
     p = os.path.join(d, 'in.json')
-    json.dump({'native': native, 'nkeys': nkeys, 'insts': insts, 'drain': drain, 'padding': padding, 'sweeper_cut': sweeper_cut,
+    json.dump({'native': native, 'nkeys': nkeys, 'insts': insts, 'drain': drain, 'padding': padding, 'sweeper_cut': sweeper_cut, 'dupsort_opt': dupsort_opt,
                'behaviours': behs}, open(p, 'w'))
     return vlib.run_harness(['proto', p], timeout=timeout)
 
@@ -125,4 +125,8 @@ def run_suite(c, prop, extra_props=(), only=None, padding_too=False):
             absorb_filtered(c, res, prop, extra_props)
             if padding_too and native:
                 res = replay(c, behs[:max(50, n // 4)], native, nkeys, insts, padding=True)
+                absorb_filtered(c, res, prop, extra_props)
+            if padding_too and not native:
+                # option dupsort_hack switched on while no DBI is a dupsort DBI: nothing may change
+                res = replay(c, behs[:max(50, n // 4)], native, nkeys, insts, dupsort_opt=True)
                 absorb_filtered(c, res, prop, extra_props)
